@@ -442,8 +442,18 @@ impl ProcfsHandle {
             // targets like that -- the ordinary symlinks of procfs are short
             // and never fail this way -- and following the link does not need
             // the text. Treat it like any other absolute target.
+            //
+            // A target that really is too long stays too long, so ask again
+            // before believing it: taking a one-off ENAMETOOLONG at face value
+            // would let the kernel follow an ordinary symlink (see below).
             Err(err) if err.kind() == ErrorKind::OsError(Some(libc::ENAMETOOLONG)) => {
-                PathBuf::from("/")
+                match self.readlink(base, subpath) {
+                    Ok(link_target) => link_target,
+                    Err(err2) if err2.kind() == ErrorKind::OsError(Some(libc::ENAMETOOLONG)) => {
+                        PathBuf::from("/")
+                    }
+                    Err(_) => return Err(err),
+                }
             }
             // Any other error says nothing about what the target is. Falling
             // back to an O_NOFOLLOW open here would, after a transient failure
